@@ -494,8 +494,11 @@ theorem mixed_preferred_repaired :
     preferredWithDensity wP [some w1, some w2, some wS] = some (1, some w2) ∧
     preferredWithDensity wP [some wS, some w1, some w2] = some (2, some w2) := by decide
 
-/-- Regenerated tie: `Compare`, `selectPreferred` and `WindowedChainTip.BlocksInWindow` as re-extracted from
-    the source on every run are the statements the model mirrors. -/
+/-- Regenerated tie: `Compare`, `selectPreferred`, `BlocksInWindow`, both `Density` methods and the
+    functions of fix 2e714eb (`windowMetricFor`, `compareDensityMetric`, `compareWithDensityMetric`,
+    `CompareWithDensity` delegating at the pair's metric, `PreferredWithDensity` choosing ONE metric for
+    the candidate set, `Preferred`) as re-extracted from the source on every run are, statement by
+    statement, the ones the model mirrors. -/
 theorem source_as_modelled :
     GV.Gen.SrcG7.compare = [
   "if a == nil && b == nil { return 0 }",
@@ -522,8 +525,42 @@ theorem source_as_modelled :
   "if windowSlots == 0 { return 0 }",
   "var count uint64",
   "for _, blockSlot := range w.blockSlots { if blockSlot > forkSlot && blockSlot-forkSlot <= windowSlots { count++ } }",
-  "return count"] := by
-  decide
+  "return count"] ∧
+    GV.Gen.SrcG7.windowMetricFor = [
+  "if p.GenesisWindowSlots == 0 { return false }",
+  "for _, t := range tips { if t == nil { continue } if _, ok := t.(WindowBlockCounter); !ok { return false } }",
+  "return true"] ∧
+    GV.Gen.SrcG7.compareDensityMetric = [
+  "if useWindow { aBlocks := a.(WindowBlockCounter).BlocksInWindow(fork.Slot, p.GenesisWindowSlots) bBlocks := b.(WindowBlockCounter).BlocksInWindow(fork.Slot, p.GenesisWindowSlots) if aBlocks > bBlocks { return 1 } if bBlocks > aBlocks { return -1 } return 0 }",
+  "p.warnFallbackDensity.Do(func() { slog.Warn(\"deep-fork comparison using legacy density ratio; configure a \"+\"genesis window and implement WindowBlockCounter for the \"+\"canonical Genesis metric\", \"securityParam\", p.SecurityParam, \"genesisWindowSlots\", p.GenesisWindowSlots) })",
+  "aDensity := a.Density(fork.Slot)",
+  "bDensity := b.Density(fork.Slot)",
+  "if aDensity > bDensity { return 1 }",
+  "if bDensity > aDensity { return -1 }",
+  "return 0"] ∧
+    GV.Gen.SrcG7.compareWithDensityMetric = [
+  "if a == nil && b == nil { return 0 }",
+  "if a == nil { return -1 }",
+  "if b == nil { return 1 }",
+  "if !p.IsDeepFork(fork, tipBlockNumber) { return p.Compare(a, b) }",
+  "if result := p.compareDensityMetric(a, b, fork, useWindow); result != 0 { return result }",
+  "return p.Compare(a, b)"] ∧
+    GV.Gen.SrcG7.compareWithDensity = [
+  "return p.compareWithDensityMetric(a, b, fork, tipBlockNumber, p.windowMetricFor(a, b))"] ∧
+    GV.Gen.SrcG7.preferredWithDensity = [
+  "useWindow := p.windowMetricFor(candidates...)",
+  "return p.selectPreferred(candidates, func(a, b ChainTip) int { return p.compareWithDensityMetric(a, b, fork, tipBlockNumber, useWindow) })"] ∧
+    GV.Gen.SrcG7.preferred = [
+  "return p.selectPreferred(candidates, p.Compare)"] ∧
+    GV.Gen.SrcG7.simpleDensity = [
+  "if s.slotsAfterFork == 0 { return 0 }",
+  "return float64(s.blocksAfterFork) / float64(s.slotsAfterFork)"] ∧
+    GV.Gen.SrcG7.windowedDensity = [
+  "var blocks, maxSlot uint64",
+  "for _, blockSlot := range w.blockSlots { if blockSlot <= forkSlot { continue } blocks++ if blockSlot > maxSlot { maxSlot = blockSlot } }",
+  "if blocks == 0 { return 0 }",
+  "return float64(blocks) / float64(maxSlot-forkSlot)"] :=
+  ⟨rfl, rfl, rfl, rfl, rfl, rfl, rfl, rfl, rfl, rfl, rfl⟩
 
 /-! non-vacuity -/
 example : selectPreferred compareTips [some wS, none, some { wS with bn := 9 }, some w1] =
